@@ -207,7 +207,57 @@ def object_cases(ctx):
     return cases
 
 
+def poisoned_saves():
+    """A save failing INSIDE an embedded project at nesting depth 1..3, then healed and repeated."""
+    import rv.api as rv
+
+    vs = []
+    n = 0
+    for depth in (1, 2, 3):
+        def make(depth=depth):
+            spec = {"inner": [["Amplifier", []]], "inner_name": "innermost", "n": 1, "maps": [[0, 1, 0]]}
+            for lvl in range(depth - 1):
+                spec = {"child": spec, "inner": [["Amplifier", []]], "n": 1, "maps": [[0, 2, 0]]}
+            p = rv.Project()
+            p.attach_module(build_mm(spec))
+            p.new_module(rv.m.Generator)
+            return p
+
+        def innermost(p, depth=depth):
+            mm = p.modules[1]
+            for _ in range(depth - 1):
+                mm = next(x for x in mm.project.modules if type(x).__name__ == "MetaModule")
+            return next(x for x in mm.project.modules if type(x).__name__ == "Amplifier")
+
+        def poison(p):
+            tgt = innermost(p)
+            old = tgt.color
+            tgt.color = (300, 0, 0)
+            return (old,)
+
+        def heal(p, token):
+            innermost(p).color = token[0]
+
+        def poison2(p):
+            tgt = innermost(p)
+            old = tgt.name
+            tgt.name = None
+            return (old,)
+
+        def heal2(p, token):
+            innermost(p).name = token[0]
+
+        k, v = C.poisoned_save_cycle(make, [(f"innermost-color@depth{depth}", poison, heal),
+                                            (f"innermost-name@depth{depth}", poison2, heal2)],
+                                     {"what": "poisoned-save"}, {"poisoned": True})
+        n += k
+        vs += v
+    return n, vs
+
+
 def run_case(case):
+    if case.get("poisoned"):
+        return poisoned_saves()[1]
     return check_case(case)[0]
 
 
@@ -233,7 +283,10 @@ def run(ctx):
     for r in ctx.pmap(_task, rotate(tasks, ctx.seed)):
         agg.merge(r)
     ctx.add(agg.violations)
-    labels = {}
+    n_p, v_p = poisoned_saves()
+    ctx.add(v_p)
+    agg.evals += n_p
+    labels = {"poisoned-saves": n_p}
     for c in cases:
         k = c["label"].split(":")[0]
         labels[k] = labels.get(k, 0) + 1
